@@ -21,6 +21,8 @@ ASSUMPTIONS = c10.ASSUMPTIONS[:3] + ['settings pools are finite samples of the d
 
 def obligations(tier):
     base = {o.id: o for o in c10.obligations(tier)}
+    from . import c06 as _c06
+    shared06 = [o for o in _c06.obligations(tier) if o.id in ('E.unlock64', 'E.printed')]      # 'its own password and no other'
     b = '64' if tier == 'quick' else '128'
     return [
         Ob('S.chunker', 'S', 'gclmulchunker(min,max) accepts exactly 1 <= min <= max', 'unbounded symbolic ints', ['replicat.utils.adapters:gclmulchunker.__init__'],
@@ -42,4 +44,4 @@ def obligations(tier):
            '3 commands x 6 previous states x 3 kdf settings = 54', ['replicat.repository:Repository.init', 'replicat.repository:Repository._add_key'], module=H, func='e_keyfile', timeout=300),
         Ob('E.addkey', 'E', 'chains of 3 add-key calls: each key unlocks with its own password only and works; rejected calls write nothing',
            '2x7x2x7x2x3 = 1176', [Rp + 'add_key', Rp + '_add_key', Rp + 'unlock'], module=H, func='e_addkey', timeout=1200, shards=8),
-    ]
+    ] + shared06
